@@ -173,18 +173,22 @@ impl PatternFormatter {
 
   /// Applies left or right padding to the given content.
   fn apply_padding(&self, buf: &mut String, content: &str, padding: i32) {
-    let width = padding.abs() as usize;
+    let width = padding.unsigned_abs() as usize;
     if content.len() >= width {
       buf.push_str(content);
       return;
     }
 
+    // Pad by hand: a runtime `{:>width$}` panics for widths above u16::MAX.
+    let fill = " ".repeat(width.saturating_sub(content.chars().count()));
     if padding > 0 {
       // Right-align (pad with spaces on the left)
-      let _ = write!(buf, "{:>width$}", content, width = width);
+      buf.push_str(&fill);
+      buf.push_str(content);
     } else {
       // Left-align (pad with spaces on the right)
-      let _ = write!(buf, "{:<width$}", content, width = width);
+      buf.push_str(content);
+      buf.push_str(&fill);
     }
   }
 }
